@@ -30,6 +30,12 @@ func (g *gen) histProduct(fam string) {
 	if kvOnly {
 		modes = append(modes, nutsdb.HintKeyAndRAMIdxMode)
 	}
+	if fam == "productsparse" {
+		// single-bucket key/value histories also in sparse mode
+		modes = append(modes, nutsdb.HintBPTSparseIdxMode)
+		g.oneBucket = true
+		defer func() { g.oneBucket = false }()
+	}
 	for _, m := range modes {
 		for _, rw := range []nutsdb.RWMode{nutsdb.FileIO, nutsdb.MMap} {
 			for _, ld := range []nutsdb.RWMode{nutsdb.FileIO, nutsdb.MMap} {
@@ -48,11 +54,13 @@ func (g *gen) histProduct(fam string) {
 		g.forceOpt = func(o *nutsdb.Options) {
 			o.EntryIdxMode, o.RWMode, o.StartFileLoadingMode, o.SyncEnable = c.mode, c.rw, c.load, c.sync
 		}
-		g.c.Mode = map[nutsdb.EntryIdxMode]string{nutsdb.HintKeyValAndRAMIdxMode: "keyval", nutsdb.HintKeyAndRAMIdxMode: "keyonly"}[c.mode]
+		g.c.Mode = map[nutsdb.EntryIdxMode]string{nutsdb.HintKeyValAndRAMIdxMode: "keyval", nutsdb.HintKeyAndRAMIdxMode: "keyonly", nutsdb.HintBPTSparseIdxMode: "sparse"}[c.mode]
 		g.c.RW = map[nutsdb.RWMode]string{nutsdb.FileIO: "fileio", nutsdb.MMap: "mmap"}[c.rw]
 		rec.Hold = true
 		if fam == "productfill" {
 			g.histFill()
+		} else if fam == "productsparse" {
+			g.histKV()
 		} else if kvOnly {
 			g.histMixed(mixOpts{kinds: []string{"kv"}, pMulti: 50, pNoCommit: 15, pMerge: 6})
 		} else {
@@ -87,9 +95,24 @@ func digest(e hx.Ev) string {
 	m := map[string]interface{}{}
 	for k, v := range e {
 		switch k {
-		case "t0", "t1", "tsLo", "tsHi", "id", "msg", "smsg", "omsg", "mode", "rw", "sync", "load", "alt", "cmp", "berr", "bok":
+		case "t0", "t1", "tsLo", "tsHi", "id", "msg", "smsg", "omsg", "mode", "rw", "sync", "load", "alt", "cmp", "berr", "bok", "sparse":
 		default:
 			m[k] = v
+		}
+	}
+	// a scan that finds nothing may say so with an error or with an empty
+	// result: one observation (the specification treats them alike)
+	switch m["op"] {
+	case "getall", "range", "pscan", "psscan":
+		empty := false
+		switch r := m["res"].(type) {
+		case []hx.Ev:
+			empty = len(r) == 0
+		case []interface{}:
+			empty = len(r) == 0
+		}
+		if empty {
+			m["err"] = true
 		}
 	}
 	b, _ := json.Marshal(m)
